@@ -88,6 +88,10 @@ def run(ctx):
     q = ctx.quick()
     c.tlc_l1(ctx, "KnowledgeBase.tla", "MC_KnowledgeBase.cfg", workers=4)
     c.tlc_l1(ctx, "KnowledgeBase.tla", "MC_KnowledgeBase_w.cfg", expect_violation="Reach_TieOrder", workers=2)
+    # design level: the locking discipline (three reader-writer locks, fixed acquisition order) - every interleaving of the
+    # individual acquisitions of three threads; the inverted table must deadlock
+    c.tlc_l1(ctx, "KBLocks.tla", "MC_KBLocks.cfg", workers=2)
+    c.tlc_l1(ctx, "KBLocks.tla", "MC_KBLocks_inverted.cfg", expect_violation="NoDeadlock", workers=2)
     plan = [("Gen_KnowledgeBase.cfg", {"Names": ["a", "b", "c"]}, 500, 8, 3)] if q else \
            [("Gen_KnowledgeBase_4.cfg", {"Names": ["a", "b", "c", "d"]}, 20000, 8, 4)]
     for cfg, cfgobj, walks, wl, ah in plan:
@@ -113,6 +117,9 @@ def run(ctx):
                        "screened at quiescence only and any incoherent one is handed to TLC (distinct_nontrivial adds the histories in "
                        "which operations of different threads overlapped in real time)")
     ctx.assumptions += ["concurrent half: only schedules that occurred in the stress runs are validated",
+                        "KBLocks.tla (deadlock freedom and exclusivity of the locking discipline under every interleaving) uses an acquisition "
+                        "table transcribed from knowledge_base.rs; it is not bound to the code by a hook (adding one would have invalidated the "
+                        "seeded changes that touch that file), so a changed lock order is detected only if it deadlocks in the stress runs",
                         "set_rule_enabled on an existing rule counts as a successful change even if the flag is unchanged"]
     return c.finish(ctx, "model_checking")
 
